@@ -56,6 +56,22 @@ fn binary_cases() -> &'static Vec<String> {
         for n in 0..=25 {
             v.push(format!("{}!", n));
         }
+        // b^n at the exact edge of the range for every exponent: the largest base whose power fits, the next one, both signs
+        // ((-2)^63 = i64::MIN fits, 2^63 does not)
+        for n in 2u32..=63 {
+            let mut b: i128 = ((i64::MAX as f64).powf(1.0 / n as f64)) as i128 + 2;
+            while b.pow(n) > i64::MAX as i128 {
+                b -= 1;
+            }
+            for base in [b, b + 1, -b, -(b + 1)] {
+                let bs = if base < 0 { format!("({})", base) } else { format!("{}", base) };
+                v.push(format!("{}^{}", bs, n));
+                v.push(format!("pow({},{})", base, n));
+                if n <= 20 {
+                    v.push(format!("{}{}", bs, crate::vocab::ascii_to_sup(&n.to_string())));
+                }
+            }
+        }
         // the same values spelled with redundant leading zeros (digit counters, fixed buffers): the value decides, not the text
         for z in [1usize, 2, 17, 18, 19, 20, 21, 30, 63, 64, 100, 200] {
             for d in ["0", "7", "42", "9223372036854775807", "9223372036854775808", "3037000500"] {
